@@ -89,7 +89,7 @@ func (f *fixture) runGates(res *workerOut, addViol func(sig, what string, c case
 	inShapes := [][]int64{{}, {1000}}
 	// small output lists, among them a negative amount at EVERY position of lists of 1..3
 	// outputs (value-conserving with the 1000 input and not)
-	outLists := [][]int64{{}, {900}, {1000}, {5000}, {1, 1 << 62},
+	outLists := [][]int64{{}, {900}, {1000}, {5000}, {1, 1 << 62}, {900, 100}, {1000, 0},
 		{-1}, {1090, -90}, {-90, 1090}, {1000, -80}, {-80, 1000}, {0, -1},
 		{500, -90, 590}, {-90, 500, 590}, {500, 590, -90}, {1000, -1, 1}}
 	classes := map[string]int{}
